@@ -52,7 +52,7 @@ ASSUMPTIONS = [
     'chunked imap/imap_unordered with a raising function is judged at chunk granularity (everything before the failing chunk in order, error record of an input of that chunk, then the generator ends) - stdlib-inherited behaviour, DESIGN note N',
     'PERM lane: the worker is scripted (runs the task tuple the parent sent, wraps failures in the real ExceptionInfo, pickles the result with billiard\'s pickler); pipes are replaced by a pickle round trip; the parent-side code is real',
     'chunk sizes <= 0 and input iterables that raise are outside the quantifier and are not generated',
-    'REAL lane hang verdict: the call has not returned and no worker logged anything for 15 s (items take <= 40 ms); it is first replayed in process with the observed completion order (a logical witness needs no clock), otherwise re-run alone before being reported',
+    'REAL lane hang verdict: the call has not returned and no worker logged anything for 30 s (items take <= 40 ms); it is first replayed in process with the observed completion order (a logical witness needs no clock), otherwise re-run alone before being reported',
     'PERM lane verdicts are logical (every part delivered and announced, non-blocking probe) except for consumers blocked in a thread (15 s bound, reported only if the non-blocking twin of the case is clean, re-run alone)',
     'lost workers, time limits and recycling are other properties: none is injected here',
 ]
@@ -350,7 +350,7 @@ def gen_call(rng, cid, nproc, tier, api=None):
     if c['types'] == 'big':
         # values of 70-300 KB are there for what happens at the pipe's capacity, not
         # for volume: 400 of them in one chunk is a 70 MB task message, and the
-        # "no worker logged anything for 15 s" rule would call its transfer a hang
+        # "no worker logged anything for 30 s" rule would call its transfer a hang
         n = min(n, 40)
     if b == 'apply':
         c['n'] = rng.choice([0, 1, 2, 3])
